@@ -269,6 +269,14 @@ print(sysconfig.get_platform(), sys.implementation.cache_tag, sep='-')
     def _copy_file_scripts(self, wheel: zipfile.ZipFile) -> None:
         file_scripts = self.convert_script_files()
 
+        names = [abs_path.name for abs_path in file_scripts]
+        for name in names:
+            if names.count(name) > 1:
+                raise RuntimeError(
+                    f"Several file scripts are named {name}."
+                    " Scripts are installed by file name, which must be unique."
+                )
+
         for abs_path in file_scripts:
             self._add_file(
                 wheel,
